@@ -142,6 +142,7 @@ inductive Val where
   | set (vs : List PyV)            -- a Python set of hashable model values
   | bound (o m : String)           -- the bound method `o.m` of the object that the local variable `o` holds
   | ref (o f : String)             -- a second name of the object in the field `f` of the object that the variable `o` holds
+  | pairs (kvs : List (PyV × PyV)) -- a Python list of 2-tuples of model values (the attribute list a parser callback receives)
   deriving DecidableEq, Repr, Inhabited
 
 def Field.toVal : Field → Val
@@ -166,6 +167,7 @@ def Val.mutable : Val → Bool
   | .lock _ => true
   | .obj _ => true
   | .set _ => true
+  | .pairs _ => true
   | _ => false
 
 def unsupported (what : String) : PyErr := .other ("unsupported:" ++ what)
@@ -177,6 +179,7 @@ def Val.truthy : Val → Bool
   | .list vs => !vs.isEmpty
   | .dict kvs => !kvs.isEmpty
   | .set vs => !vs.isEmpty
+  | .pairs kvs => !kvs.isEmpty
   | _ => true
 
 /-- `a == b` on model values. -/
@@ -214,6 +217,7 @@ def pyEq (x y : Val) : Except PyErr Bool :=
   | .set _ => (match y with | .set _ => .error (unsupported "==") | _ => .ok false)
   | .bound _ _ => (match y with | .bound _ _ => .error (unsupported "==") | _ => .ok false)
   | .ref _ _ => .error (unsupported "==")
+  | .pairs _ => .error (unsupported "==")
 
 /-- Objects of which there is exactly one: `is` is then structural equality of the representation. -/
 def Val.unique : Val → Bool
@@ -348,6 +352,7 @@ def getAttr (x : Val) (a : String) : Except PyErr Val :=
     | .set _ => .ok (.cls "set")
     | .bound _ _ => .ok (.cls "method")
     | .ref _ _ => .error (unsupported "attribute of an alias")
+    | .pairs _ => .ok (.cls "list")
   else
     match x with
     | .obj fs => (match fs.lookup a with | some fv => .ok fv.toVal | none => .error (.other "AttributeError"))
@@ -618,6 +623,7 @@ def pyLen : Val → Except PyErr Val
   | .tuple vs => .ok (.py (.int vs.length))
   | .dict kvs => .ok (.py (.int kvs.length))
   | .set vs => .ok (.py (.int vs.length))
+  | .pairs kvs => .ok (.py (.int kvs.length))
   | .py .none => .error .typeError
   | .py (.int _) => .error .typeError
   | .py (.bool _) => .error .typeError
@@ -768,6 +774,8 @@ inductive Stmt where
   | setItemRef (x : String) (k v : Expr)                -- x[k] = v, x such a second name (of a dict)
   | delItemRef (x : String) (k : Expr)                  -- del x[k], x such a second name (of a dict)
   | refCall (x m : String) (args : List Expr)           -- x.m(args) as a statement, x such a second name (of a list: `pop`, …)
+  | forPair (a b : String) (it : Expr) (body : List Stmt)   -- for (a, b) in it: …, `it` a variable holding a list of 2-tuples
+  | retBase (o m : String) (args : List Expr)           -- return Base.m(o, args): the method `m` of the base class (`Ctx.baseMeth`)
 inductive Handler where
   | mk (type : Option String) (body : List Stmt)        -- `except:` (none) / `except T:` (some T)
   | mkAs (type : String) (name : String) (body : List Stmt)   -- `except T as name:`
@@ -826,6 +834,7 @@ def iterItems : Val → Option (List Val)
   | .list vs => some (vs.map .py)
   | .tuple vs => some (vs.map .py)
   | .dict kvs => some (kvs.map (fun p => .py p.1))
+  | .pairs kvs => some (kvs.map (fun p => .tuple [p.1, p.2]))
   | _ => none
 
 /-- What a method of the class does, given the fields of the receiver and the arguments: the fields afterwards (`none`: the
@@ -848,6 +857,8 @@ structure Ctx where
   meths : String → Option MethSem := fun _ => none
   /-- the attributes of the elements (by number) that the code reads from items of a list of elements: parameters -/
   elemAttr : Nat → String → Option Val := fun _ _ => none
+  /-- methods of the base class called as `Base.m(self, args)`: parameters (what they do to the object, what they return) -/
+  baseMeth : String → Option MethSem := fun _ => none
 
 /-- `x = v` in an association list (the local variables; the fields of an object): an existing binding is replaced where
 it is, a new one is added at the end. -/
@@ -1266,6 +1277,31 @@ def execS (cx : Ctx) (env : Env) : Stmt → Env × Res
               | .error err => (env, .exc err)
               | .ok fv' => ((putField env o f fv').1, .next)))
         | some _ => (env, .exc (unsupported "a variable that is not a second name of a field"))
+        | none => (env, .exc (.other "UnboundLocalError"))))
+  | .forPair a b it body =>
+    (match eval cx env it with
+     | .error err => (env, .exc err)
+     | .ok (.pairs kvs) =>
+       if it.isVar then
+         forLoop (fun env v => match v with | .tuple [x, y] => assocSet (assocSet env a (.py x)) b (.py y) | _ => env)
+           (fun env => execL cx env body) (fun env' => decide (eval cx env' it = .ok (.pairs kvs)))
+           (kvs.map (fun p => .tuple [p.1, p.2])) env
+       else (env, .exc (unsupported "iteration over something else than a variable"))
+     | .ok _ => (env, .exc (unsupported "unpacking iteration over something else than a list of pairs")))
+  | .retBase o m args =>
+    (match evalList cx env args with
+     | .error err => (env, .exc err)
+     | .ok vs =>
+       (match env.lookup o with
+        | some (.obj fs) =>
+          (match cx.baseMeth m with
+           | none => (env, .exc (.other "AttributeError"))
+           | some g =>
+             (match g fs vs with
+              | (some fs', .ok v) => (assocSet env o (.obj fs'), .ret v)
+              | (some fs', .error e) => (assocSet env o (.obj fs'), .exc e)
+              | (none, _) => (env, .abort "a method lost its object")))
+        | some _ => (env, .exc (unsupported "base method of something else than self"))
         | none => (env, .exc (.other "UnboundLocalError"))))
 def execL (cx : Ctx) (env : Env) : List Stmt → Env × Res
   | [] => (env, .next)
